@@ -417,12 +417,87 @@ def minmax_cases(rng):
     return out
 
 
+def after_rejection_cases():
+    """every base x a rejected operation x 1-2 follow-up operations (valid and invalid): a rejected operation must
+    leave no trace - not in the dump and not in anything later validation consults"""
+    ax = lambda n, **kw: {"name": n, **kw}  # noqa: E731
+    pm = lambda i, dt="int64", **kw: {"identifier": i, "dtype": dt, **kw}  # noqa: E731
+    hint = lambda h, v, **kw: {"display_horizontal": h, "display_vertical": v, **kw}  # noqa: E731
+    A = lambda f, v: {"k": "assign", "f": f, "v": v}  # noqa: E731
+    out = []
+    for bi, base in enumerate(mc.base_docs()):
+        names = [a["name"] for a in (base.get("axes") or [])]
+        cur = names[:2] if len(names) >= 2 else (names * 2 if names else ["x", "y"])
+        rejected = [
+            A("axes", [ax("a"), ax("b")]),                      # rejected when hints name other axes (else accepted)
+            A("axes", [ax("a"), ax("a")]), A("axes", [ax("a"), ax("b"), ax("a")]),
+            A("axes", [ax("a", min=1), ax("b")]), A("axes", [ax("a", type="foo"), ax("b")]), A("axes", "abc"),
+            A("display_hints", hint("a", "b")), A("display_hints", hint(cur[0], "nope")),
+            A("node_props_metadata", {"a": pm("b")}), A("edge_props_metadata", {"a": pm("b"), "b": pm("a")}),
+            A("node_props_metadata", {"a": pm("a", "float16")}),
+            A("geff_version", "abc"), A("directed", None), A("nope", 1),
+            {"k": "updateAxes", "names": ["a", "a"]}, {"k": "updateAxes", "names": ["a", "b"], "types": ["foo", None]},
+            {"k": "createOrUpdate", "directed": True, "axes": [ax("a"), ax("a")]},
+            {"k": "addProps", "props": [pm("p", "float16")], "ctype": "node"},
+        ]
+        follow = [
+            [A("display_hints", hint("a", "b"))], [A("display_hints", hint("a", "b", display_time="a"))],
+            [A("display_hints", hint(cur[0], cur[1]))], [A("display_hints", None)],
+            [A("sphere", "r")], [A("directed", False)], [A("geff_version", "0.3.1.dev6+g61d5f18")], [A("extra", {"k": 1})],
+            [A("node_props_metadata", {"a": pm("a")})], [A("edge_props_metadata", {"b": pm("b", "str")})],
+            [A("related_objects", [{"type": "labels", "path": "p", "label_prop": "l"}])],
+            [A("axes", [ax(n) for n in cur])], [A("axes", [ax("a"), ax("b")])], [A("axes", None)],
+            [{"k": "copy", "how": "deepcopy"}, A("display_hints", hint("a", "b"))],
+            [{"k": "copy", "how": "model_copy"}, A("sphere", "q"), A("display_hints", hint(cur[0], cur[1]))],
+            [A("sphere", "r"), A("display_hints", hint("a", "b")), A("ellipsoid", "e")],
+            [{"k": "addProps", "props": [pm("n1")], "ctype": "node"}], [{"k": "updateAxes", "names": ["a", "b"]}],
+            [{"k": "createOrUpdate", "directed": False}],
+        ]
+        for ri, r in enumerate(rejected):
+            for fi, fl in enumerate(follow):
+                out.append({"init": {"k": "parse", "doc": base, "via": ("validate", "kwargs", "json")[(bi + ri + fi) % 3]},
+                            "ops": [{**r, "inst": (ri + fi) % 2 == 0}] + [{**o, "inst": (bi + fi) % 2 == 0} for o in fl],
+                            "tag": "after-rejection"})
+    return out
+
+
 def _json_safe(v):
     try:
         json.dumps(v)
         return True
     except Exception:  # noqa: BLE001
         return False
+
+
+def _follow_ups(rng, f, v, names, hinted):
+    """1-3 operations appended after an (intended) rejected assignment: assignments that would only be valid had the
+    rejected value been stored, assignments that are valid for the object as it still is, and unrelated ones"""
+    out = []
+    rej_names = []
+    if f == "axes" and isinstance(v, list):
+        rej_names = [a.get("name") for a in v if isinstance(a, dict) and isinstance(a.get("name"), str)]
+    pool_now = names if names else mc.NAMES
+    for _ in range(rng.randint(1, 3)):
+        r = rng.random()
+        if r < 0.3 and rej_names:
+            h = {"display_horizontal": rng.choice(rej_names), "display_vertical": rng.choice(rej_names)}
+            if rng.random() < 0.4:
+                h["display_time"] = rng.choice(rej_names)
+            out.append({"k": "assign", "f": "display_hints", "v": h, "inst": rng.random() < 0.5})
+        elif r < 0.5 and pool_now:
+            out.append({"k": "assign", "f": "display_hints", "inst": rng.random() < 0.5,
+                        "v": {"display_horizontal": rng.choice(pool_now), "display_vertical": rng.choice(pool_now)}})
+        elif r < 0.6 and f in ("node_props_metadata", "edge_props_metadata") and isinstance(v, dict):
+            out.append({"k": "addProps", "props": [mc.gen_prop(rng, i) for i in list(v)[:2] if i], "ctype": f.split("_")[0],
+                        "inst": rng.random() < 0.5})
+        else:
+            g = rng.choice(["sphere", "ellipsoid", "directed", "geff_version", "extra", "track_node_props", "related_objects",
+                            "node_props_metadata", "edge_props_metadata"])
+            val = {"sphere": "r", "ellipsoid": "cov", "directed": rng.random() < 0.5, "geff_version": "1.3", "extra": {"k": [1]},
+                   "track_node_props": {"lineage": "l"}, "related_objects": [{"type": "image", "path": "p"}],
+                   "node_props_metadata": mc.gen_props(rng), "edge_props_metadata": mc.gen_props(rng)}[g]
+            out.append({"k": "assign", "f": g, "v": val, "inst": rng.random() < 0.5})
+    return out
 
 
 def random_history(rng, cat, nops):
@@ -488,6 +563,8 @@ def random_history(rng, cat, nops):
                     except Exception:  # noqa: BLE001
                         pass
             ops.append({"k": "assign", "f": f, "v": v, "inst": rng.random() < 0.5})
+            if invalid:
+                ops.extend(_follow_ups(rng, f, v, names, hinted))
         elif r < 0.59:
             # compute_and_add_axis_min_max over the (shadowed) declared axes; not modelled -> specification only
             ops.append({"k": "minmax", "props": minmax_props(rng, names if names is not None else rng.sample(mc.NAMES, 2))})
@@ -653,12 +730,13 @@ def run(ck: common.Check):
     ck.rule = ("cases = corpus + every catalogue value (valid / invalid / context-dependent) assigned to its field on 12 "
                "base objects and given at construction through kwargs, model_validate, model_validate_json and zarr v2/v3 "
                "attributes + a helper catalogue on every base (incl. compute_and_add_axis_min_max with masks none/some/all and junk "
-               "placeholders) + seeded random histories of <= 8 operations (mostly valid, "
+               "placeholders) + every base x 18 rejected operations x 20 follow-up sequences + seeded random histories of <= 8 operations (mostly valid, "
                "25% invalid values); non-trivial = at least one operation or a rejected construction; distinct = distinct "
                "canonical JSON of the history")
     cases = list(corpus())
     cases += single_op_cases()
     cases += minmax_cases(ck.rng)
+    cases += after_rejection_cases()
     cat = mc.catalogue()
     nrand = 2500 if ck.quick else 30000
     for _ in range(nrand):
@@ -671,14 +749,17 @@ def run(ck: common.Check):
     _t[0] = time.time()
     drv = ck.driver()
     reqs = [model_request(c) for c in cases]
-    # the Lean specification evaluated directly on the implementation's last observed dump of every history
+    # the Lean specification evaluated directly on the implementation's observed dump after EVERY step of every
+    # history (identical consecutive dumps - a rejected operation, a copy - are evaluated once)
     last = []
     for idx, (c, im) in enumerate(zip(cases, impl)):
         if c.get("kind") == "axes" or im.get("init") != "ok":
             continue
-        o = im["steps"][-1] if im["steps"] else im["obj"]
-        if isinstance(o["dump"], dict):
-            last.append((idx, o))
+        prev = None
+        for o in [im["obj"]] + im["steps"]:
+            if isinstance(o["dump"], dict) and o["dump"] != prev:
+                last.append((idx, o))
+                prev = o["dump"]
     sreqs = [{"op": "valid", "env": reqs[idx]["env"], "dump": o["dump"]} for idx, o in last]
     _ph["requests"] = round(time.time() - _t[0], 1)
     _t[0] = time.time()
